@@ -39,8 +39,11 @@ def generate():
          "MultiPathManagerConfig::validate (two rejections)", relm, re.S)
     # issue manager: dedup test, eviction trigger
     need(t, r"if time_since_last_seen < self\.deduplication_window \{", "add_issue dedup window test", relm)
-    need(t, r"if self\.cache\.contains_key\(&id\) \{\s*(?://[^\n]*\n\s*)*self\.fifo_issues\.retain\(\|\(fifo_id, _\)\| \*fifo_id != id\);\s*"
-            r"\} else if self\.cache\.len\(\) >= self\.max_entries \{\s*self\.pop_front\(\);", "add_issue: replace FIFO entry / eviction trigger", relm)
+    need(t, r"while self\.cache\.len\(\) >= self\.max_entries \{\s*if self\.fifo_issues\.is_empty\(\) \{\s*break;\s*\}\s*self\.pop_front\(\);\s*\}",
+         "add_issue: eviction loop (pop until room or FIFO empty)", relm)
+    need(t, r"if self\.fifo_issues\.len\(\) >= 2 \* self\.max_entries\.max\(1\) \{\s*let cache = &self\.cache;\s*self\.fifo_issues\s*"
+            r"\.retain\(\|\(fid, ts\)\| cache\.get\(fid\)\.is_some_and\(\|m\| m\.timestamp == \*ts\)\);", "add_issue: FIFO compaction at 2 * max(max_entries, 1)", relm)
+    need(t, r"self\.fifo_issues\.push_back\(\(id, marker\.timestamp\)\);[^\n]*\n\s*self\.cache\.insert\(id, marker\);", "add_issue: push FIFO entry, insert", relm)
     need(t, r"let expired = active\.is_expired\(timestamp\)\.unwrap_or\(false\);\s*(?://[^\n]*\n\s*)*if expired \{\s*return None;\s*\}",
          "cached_path: expired path is not handed out", relm)
     need(t, r"let expired = active\.is_expired\(timestamp\)\.unwrap_or\(false\);\s*(?://[^\n]*\n\s*)*if expired \{\s*return Err\(Arc::new\(PathFetchError::NoPathsFound\)\);\s*\}",
